@@ -99,6 +99,9 @@ func repair(evs []fstrace.Event, v fstrace.Verdict) []fstrace.Event {
 	case "ack-before-dirsync":
 		out = append(out, fstrace.Event{Kind: 'D', N: v.Path.Dir})
 		out = append(out, evs[v.Index:]...)
+	case "unsynced": // pretend the source had been flushed
+		out = append(out, fstrace.Event{Kind: 'S', P: evs[v.Index].P})
+		out = append(out, evs[v.Index:]...)
 	default: // drop the offending call
 		out = append(out, evs[v.Index+1:]...)
 	}
@@ -260,17 +263,25 @@ func (g *engine) runOne(sc Scenario) bool {
 	}
 	g.res.Distribution["inplace-follow-writes"] += tr.InplaceFollowWrites
 	nviol := 0
+	parts := [][]fstrace.Event{tr.Events}
 	if sc.Name == "follow" {
 		// the follower publishes into the output tree concurrently with sync/upload operations on the
 		// local and replica trees: judge the two projections separately (the rules never relate them)
 		isOut := func(op string) bool { return op == "follow" || strings.HasPrefix(op, "restore") }
-		nviol += g.judgeTrace(sc, "db+replica", fstrace.Project(tr.Events, map[int]bool{0: true, 1: true}, func(op string) bool { return !isOut(op) }))
-		nviol += g.judgeTrace(sc, "output", fstrace.Project(tr.Events, map[int]bool{2: true}, isOut))
+		parts = [][]fstrace.Event{
+			fstrace.Project(tr.Events, map[int]bool{0: true, 1: true}, func(op string) bool { return !isOut(op) }),
+			fstrace.Project(tr.Events, map[int]bool{2: true}, isOut)}
+		nviol += g.judgeTrace(sc, "db+replica", parts[0])
+		nviol += g.judgeTrace(sc, "output", parts[1])
 	} else {
 		nviol += g.judgeTrace(sc, "all", tr.Events)
 	}
+	var pubs []fstrace.Publication
+	for _, part := range parts {
+		pubs = append(pubs, fstrace.Observed(part)...)
+	}
 	// static vs observed
-	for _, pub := range fstrace.Observed(tr.Events) {
+	for _, pub := range pubs {
 		name := protoFor(pub)
 		p, ok := g.protos[name]
 		g.res.Count("published:" + name)
@@ -286,7 +297,6 @@ func (g *engine) runOne(sc Scenario) bool {
 		}
 	}
 	if len(g.res.Samples) < 6 {
-		pubs := fstrace.Observed(tr.Events)
 		g.res.Sample(map[string]any{"scenario": sc, "events": len(tr.Events), "publications": len(pubs), "violations": nviol,
 			"first_events": fstrace.Line(tr.Events[:min(12, len(tr.Events))])})
 	}
